@@ -231,11 +231,114 @@ func scripted() []core.Case {
 		b.probe(1)
 		cs = append(cs, b.done("confirmed-double-spend-vs-pool-chain"))
 	}
+	// redelivery (InsertTx + AddCredit again) of a confirmed tx whose credit a confirmed tx has spent meanwhile; the
+	// same for an unconfirmed spender; redelivery of the unconfirmed notification after confirmation
+	{
+		b := newSB(3)
+		p := b.tx([]wire.OutPoint{b.foreign()}, 100000, 777)
+		t := b.tx([]wire.OutPoint{out(p, 0)}, 40000, 59000)
+		u := b.tx([]wire.OutPoint{out(t, 0)}, 39000)
+		b.conf(p, blk(10, 1), "0:0")
+		b.conf(t, blk(11, 1), "1:1")
+		b.probe(11)
+		b.add("ev conf! %s %d %s %d cr=0:0", p.tid, 10, hx(blk(10, 1).hash), blk(10, 1).time)
+		b.probe(11)
+		b.add("ev seen! %s cr=0:0", p.tid)
+		b.probe(11)
+		b.seen(u, "0:0")
+		b.add("ev conf! %s %d %s %d cr=1:1", t.tid, 11, hx(blk(11, 1).hash), blk(11, 1).time)
+		b.add("ev seen! %s cr=0:0", u.tid)
+		b.probe(12)
+		b.add("rollback 11")
+		b.add("ev seen! %s cr=1:1", t.tid)
+		b.add("ev conf! %s %d %s %d cr=0:0", p.tid, 10, hx(blk(10, 1).hash), blk(10, 1).time)
+		b.probe(10)
+		cs = append(cs, b.done("redelivery-after-spend"))
+	}
+	// credit spent by a confirmed tx; both rolled back; the credit's tx re-confirmed; the spender abandoned / replaced
+	{
+		b := newSB(3)
+		a := b.tx([]wire.OutPoint{b.foreign()}, 5000, 600)
+		t := b.tx([]wire.OutPoint{out(a, 0)}, 4900)
+		d := b.tx([]wire.OutPoint{out(a, 0)}, 4800)
+		b.conf(a, blk(5, 1), "0:0,1:1")
+		b.conf(t, blk(5, 1), "0:0") // same block, after the tx whose credit it spends
+		b.probe(6)
+		b.add("rollback 5")
+		b.probe(4)
+		b.conf(a, blk(5, 2), "0:0,1:1")
+		b.probe(5)
+		b.add("removeunmined %s", t.tid)
+		b.probe(5)
+		b.conf(d, blk(6, 2), "0:0")
+		b.probe(6)
+		b.add("rollback 6")
+		b.probe(5)
+		cs = append(cs, b.done("respent-after-reconfirm"))
+	}
+	// rollback to a height that has no block record (blocks without wallet transactions in between)
+	{
+		b := newSB(3)
+		p := b.tx([]wire.OutPoint{b.foreign()}, 5000)
+		q := b.tx([]wire.OutPoint{out(p, 0)}, 4000)
+		r := b.tx([]wire.OutPoint{b.foreign()}, 3000)
+		b.conf(p, blk(3, 1), "0:0")
+		b.conf(q, blk(6, 1), "0:0")
+		b.conf(r, blk(8, 1), "0:0")
+		b.probe(9)
+		b.add("rollback 7")
+		b.probe(6)
+		b.add("range 7 0")
+		b.add("spec range 7 0")
+		b.add("range 5 4")
+		b.add("spec range 5 4")
+		b.add("range 4 9")
+		b.add("spec range 4 9")
+		b.add("rollback 4")
+		b.probe(3)
+		b.add("range 7 0")
+		b.add("spec range 7 0")
+		b.add("range 2 -1")
+		b.add("spec range 2 -1")
+		cs = append(cs, b.done("rollback-to-height-without-record"))
+	}
+	// an unconfirmed descendant hanging off a NON-credited output of a conflicting / abandoned transaction;
+	// a leased unconfirmed credit; a lease that survives the rollback of its output's block
+	{
+		b := newSB(3)
+		p := b.tx([]wire.OutPoint{b.foreign()}, 4000, 6000)
+		a := b.tx([]wire.OutPoint{out(p, 0)}, 1000, 2900) // output 1 not credited
+		c := b.tx([]wire.OutPoint{out(a, 1)}, 2800)       // hangs off the non-credited output
+		d := b.tx([]wire.OutPoint{out(p, 0)}, 3900)       // conflicts with a
+		e := b.tx([]wire.OutPoint{out(p, 1)}, 5900)
+		b.add("clock 1700000000000000000")
+		b.conf(p, blk(1, 1), "0:0,1:0")
+		b.seen(a, "0:1")
+		b.seen(c, "0:0")
+		b.add("lock 1 %s 60000000000", opLong(out(c, 0)))
+		b.probe(1)
+		b.conf(d, blk(2, 1), "0:0")
+		b.probe(2)
+		b.seen(e, "0:0")
+		b.add("lock 2 %s 60000000000", opLong(out(p, 1)))
+		b.add("lock 1 %s 60000000000", opLong(out(e, 0)))
+		b.probe(2)
+		b.add("removeunmined %s", e.tid)
+		b.probe(2)
+		b.add("lock 1 %s 60000000000", opLong(out(d, 0)))
+		b.add("rollback 2")
+		b.probe(1)
+		b.add("rollback 1")
+		b.probe(0)
+		cs = append(cs, b.done("descendant-via-foreign-output+leases"))
+	}
 	return cs
 }
 
 // exhaustive: every consistent history of at most 5 events over a 5-transaction universe (coinbase, a chain of two,
 // a conflicting spend, an independent tx); the final state of each history is probed (prefixes are histories too).
+var maxDepth = 5
+
 func exhaustive() []core.Case {
 	type ev struct {
 		line string
@@ -263,7 +366,7 @@ func exhaustive() []core.Case {
 			ops = append(ops, "range 0 -1", "spec range 0 -1", "range -1 0", "spec range -1 0", "dump")
 			cases = append(cases, core.Case{Ops: ops, Tags: []string{"exhaustive"}})
 		}
-		if depth == 5 {
+		if depth == maxDepth {
 			return
 		}
 		var cands []ev
